@@ -336,6 +336,11 @@ def _judge(case, res, exc, n_models, strategy=None):
         reps = [r for r in _f11_repaired(case, expr) if r != expr]
         if any(S.check_estimand(g, jt, rep, case.get("seed", 0), n_models=n_models, cond=cond) is None for rep in reps):
             return msg + " [numerator right; only the normalisation of Expression.conditional is wrong: F11]", "F11"
+    if kind == "value" and not isinstance(expr, str) and expr[0] == "frac":
+        shared = {int(var[1]) for var, _ in case["outcomes"]} & {int(var[1]) for var, _ in case["conditions"]}
+        if shared and S.check_estimand(g, jt, expr[1], case.get("seed", 0), n_models=n_models) is None:
+            return msg + (" [numerator right; the final normalisation est.conditional([c.get_base() for c in conditions]) works "
+                          "with base names, but an outcome and a condition are copies of the same variable]"), "conditional:shared-base"
     return msg, kind
 
 
@@ -377,12 +382,13 @@ def _evaluate(case, n_models=8, with_unpatched=True):
     return {"by_order": by_order, "unpatched": r0, "fail": fail, "kind": kind, "in_domain": dom, "strategy": fail_strategy}
 
 
-COARSE = ("F11", "inherited", "reassociation", "exchange:polarity", "exchange:conditions", "exchange:separation")
+COARSE = ("F11", "inherited", "reassociation", "exchange:polarity", "exchange:conditions", "exchange:separation",
+          "conditional:shared-base")
 
 
 def _coarse_key(case, r):
     """finding key of the failures that are explained by an identified broken step / another listed defect"""
-    if r["kind"] in ("F11", "reassociation") or r["kind"].startswith("exchange:"):
+    if r["kind"] in ("F11", "reassociation", "conditional:shared-base") or r["kind"].startswith("exchange:"):
         return json.dumps([r["kind"]])
     if r["kind"] == "inherited":
         why, detail = _explain(case, r["strategy"], 8)
